@@ -76,6 +76,22 @@ class SemanticPointer(Fixed):
         self._expr_tree = name
 
     @property
+    def type(self):
+        """Type of the pointer, determined solely by its vocabulary.
+
+        Type inference (`.infer_types`) assigns inferred vocabularies to the
+        nodes of an expression. A Semantic Pointer is an immutable value and
+        must stay combinable with every vocabulary of its dimensionality, so
+        such assignments are ignored.
+        """
+        vocab = getattr(self, "vocab", None)
+        return TAnyVocab if vocab is None else TVocabulary(vocab)
+
+    @type.setter
+    def type(self, value):
+        pass
+
+    @property
     def name(self):
         return None if self._expr_tree is None else str(self._expr_tree)
 
